@@ -442,7 +442,10 @@ def array_contract_tree(
     )
 
     nterms = len(inputs)
-    if nterms == 1:
+    if isinstance(optimize, ContractionTree):
+        # an explicit tree, n.b. it might have sliced or projected indices
+        pass
+    elif nterms == 1:
         # there is no path
         optimize = ()
     elif nterms <= 2:
